@@ -32,7 +32,9 @@ REQUIRED_CLASSES = ['dialect_whitespace_char', 'regex_header_not_matching', 'goo
 
 DATE_FORMATS = ['%m/%d/%Y', '%Y-%m-%d', '%d/%m/%Y', '%m/%d/%y', '%d.%m.%Y', '%d %b %Y', '%Y%m%d']
 DESC_TEXT = ['NETFLIX.COM', 'UBER *EATS', 'AMZN Mktp US*1A2B3', 'Café "Zoë" ☕', "O'NEIL'S PUB", 'HOLIDAY INN, SEATTLE WA', 'a;b|c:d', 'line1\nline2', 'tab\there',
-             '  padded  ', '{amount}', '100%', '日本 レストラン', '#1234 STORE', 'x', '-5.00', '"quoted"', 'semi;colon', 'pipe|d', 'co:lon', 'back\\slash', 'CHECK 1001']
+             '  padded  ', '{amount}', '100%', '日本 レストラン', '#1234 STORE', 'x', '-5.00', '"quoted"', 'semi;colon', 'pipe|d', 'co:lon', 'back\\slash', 'CHECK 1001',
+             # characters str.splitlines() treats as line boundaries but a text file does not: they are ordinary cell content
+             'LINE\u2028SEP STORE', 'NEL\u0085FORM\x0cFEED', 'PARA\u2029GRAPH 12.50', 'VT\x0bFS\x1cGS\x1dRS\x1e END']
 CUSTOM_NAMES = ['memo', 'type', 'vendor', 'cardholder', 'code']
 
 
@@ -142,7 +144,7 @@ BAD_DATES = ['', 'not a date', '13/45/2024', '2024-02-30', '00/00/0000', '31-31-
 
 import string as _string
 # any printable text a cell can carry (no lone carriage return: text-mode reading folds it into a newline, and no statement has one inside a cell)
-FREE_TEXT = st.text(alphabet=_string.ascii_letters + _string.digits + " .,;:|*#&'\"()[]{}?+^$\\/-_!@%=<>~`\t\n" + 'éÉßİ日本☕\u00a0', max_size=24)
+FREE_TEXT = st.text(alphabet=_string.ascii_letters + _string.digits + " .,;:|*#&'\"()[]{}?+^$\\/-_!@%=<>~`\t\n" + 'éÉßİ日本☕\u00a0\u2028\u2029\u0085\x0b\x0c\x1c\x1d\x1e', max_size=24)
 
 
 @st.composite
